@@ -316,8 +316,11 @@ fn main() {
             );
             continue;
         }
-        if n < 3 {
-            check.inconclusive(&format!("only {n} sandbox calls seen for {cfg:?}: the supervisor is not seeing the I/O"));
+        // a fault-free run that produced the archive must have touched the sandbox at least once;
+        // however few the calls are (a single truncating open + write is a legitimate — and
+        // non-atomic — way to write a file) they are enumerated like any others
+        if n < 1 {
+            check.inconclusive(&format!("no sandbox call seen for {cfg:?} although the archive was produced: the supervisor is not seeing the I/O"));
             continue;
         }
         total_calls += n;
